@@ -10,7 +10,8 @@ rejected, every object of the tree is validated on its own (members emptied) aga
 selects, so that each distinct drift gets its own bucket `<object kind>:<instance path>:<keyword>[:<detail>]`; a document
 that is rejected although every node passes is reported as `unlocalised`.
 
-A tree whose full dump raises is not judged here (C08 clause dump-total reports it); it is counted as `skip:dump-raises`.
+A tree whose full dump raises is a violation of its own (clause `dump`, bucket `raises:<Exc>@<innermost griffe frame>`): a
+document that cannot be produced does not validate.
 """
 
 from __future__ import annotations
@@ -23,7 +24,7 @@ import warnings
 from hypothesis import strategies as st
 
 from vp.common import bootstrap
-from vp.common.harness import Fail, digest
+from vp.common.harness import Fail, call, digest
 from vp.gen import c08_pkg as G
 from vp.props import c08
 
@@ -39,7 +40,7 @@ RULE = (
 )
 ASSUMPTIONS = [
     "jsonschema 4.x Draft7Validator is the reference reading of docs/schema.json",
-    "loading is trusted; packages that fail to load or whose full dump raises are skipped and counted (C08 judges dump totality)",
+    "loading is trusted; packages that fail to load are skipped and counted; a full dump that raises is a violation (clause dump)",
     "the schema is read from bootstrap.REPO/docs/schema.json (the tree under test), not from the web",
     "built-in modules are outside this property (it quantifies over packages loaded from files on disk)",
 ]
@@ -181,12 +182,10 @@ def check_case(case, observe=None) -> list[Fail]:
                 return []
             if case.get("cwd") == "inside":
                 os.chdir(info["search_paths"][0])
-            try:
-                text = module.as_json(full=True)
-            except Exception as exc:  # noqa: BLE001  C08 (dump-total) reports this
-                if observe is not None:
-                    observe["skip"] = f"dump-raises:{type(exc).__name__}"
-                return []
+            elif case.get("cwd") == "root":
+                os.chdir(root)
+            # a full dump that cannot be produced certainly does not validate: clause `dump`
+            text = call("dump", module.as_json, full=True, what="as_json(full=True)")
             doc = json.loads(text)
             if observe is not None:
                 observe["doc"] = doc
@@ -207,7 +206,7 @@ def _cases(ctx):
                 "agent": st.just(agent),
                 "resolve": st.sampled_from((0, 1, 2)),
                 "parser": st.sampled_from(("google", "numpy", "sphinx", None)),
-                "cwd": st.sampled_from(("outside", "inside")),
+                "cwd": st.sampled_from(("outside", "inside", "root")),
                 "steer": st.just(steer),
             },
         )
